@@ -365,6 +365,16 @@ func cmdRun(args []string) int {
 		cfg.StopAfter = 4 * time.Minute
 	}
 	jobs := jobsFor(*prop, *tier)
+	if f := os.Getenv("VERIF_FAMILY"); f != "" {
+		// debugging aid: only the job families with this prefix
+		var sel []*Job
+		for _, j := range jobs {
+			if strings.HasPrefix(j.Family, f) {
+				sel = append(sel, j)
+			}
+		}
+		jobs = sel
+	}
 	if len(jobs) == 0 {
 		fmt.Fprintln(os.Stderr, "no jobs for", *prop, *tier)
 		return 2
